@@ -545,7 +545,9 @@ SERVICE_NAMES = {"4c": "read", "52": "read-fragmented", "4d": "write", "53": "wr
 
 def run_calls(ctx, model, focus, kind):
     rng = ctx.rng
-    stream = "ld-read" if kind == "read" else "ld-write"
+    session_kind = kind
+    stream = {"read": "ld-read", "write": "ld-write", "mixed": "ld-mixed"}[kind]
+    wrote = {}
     n = ctx.budget(60, 600)
     for i in range(n):
         o = _open_pair(ctx, model, rng, stream)
@@ -559,19 +561,68 @@ def run_calls(ctx, model, focus, kind):
             continue
         calls = []
         ok = True
-        for c in range(rng.choice([1, 1, 2, 3])):
+        last_write = None
+        for c in range(rng.choice([1, 1, 2, 3]) if session_kind != "mixed" else rng.choice([2, 4, 6])):
+            if session_kind == "mixed":
+                kind = "write" if c % 2 == 0 else "read"
             if kind == "read":
                 args, shapes = gen_read_call(rng, p, cfg["program_tags"])
+                if session_kind == "mixed" and last_write:
+                    # read back, with the very same request strings, what the previous call wrote
+                    back = [t for t, _ in last_write]
+                    args = back + list(args)[:3]
+                    shapes = ["readback"] * len(back) + list(shapes)[:3]
                 shown = list(args)
             else:
                 args, shapes = gen_write_call(rng, p, cfg["program_tags"])
                 args = [(t, v) for t, v in args if _renderable(v)]
+                if session_kind == "mixed":
+                    # one element beyond the first 32-bit word of every BOOL array the call does not touch otherwise:
+                    # reads address such an array from word 0, writes address the word itself
+                    used = {t.split("[")[0].split(".")[0].split("{")[0] for t, _ in args}
+                    for sym in p["controller"]:
+                        words = lx._count(sym.dims) if sym.kind == "atomic" and sym.typ == "DWORD" else 0
+                        if words >= 2 and sym.name not in used and lx.is_user_symbol(sym):
+                            idx = rng.randrange(32, 32 * words)
+                            old_bit = bool(sym.mem[idx // 8] >> (idx % 8) & 1)
+                            args.append(("%s[%d]" % (sym.name, idx), not old_bit))
+                            shapes.append("boolarr-beyond-word0")
                 shown = [(t, sx.val(v)) for t, v in args]
+                last_write = args
             if not args:
                 continue
             calls.append(shown)
             case = _case(ctx.seed, i, scn, cfg, calls)
             impl, mod, line = pair.call(kind, args)
+            # C02 / C01: a value the driver reported written is what a read of the same request string returns
+            if session_kind == "mixed" and kind == "write":
+                wrote = {}
+                if impl["result"][0] == "tags":
+                    def base(t):
+                        pre = ""
+                        if t.startswith("Program:") and "." in t:
+                            pre, t = t.split(".", 1)
+                        return pre + "." + re.split(r"[.\[{]", t, 1)[0]
+                    bases = [base(t) for t, _ in args]
+                    for (t, v), tg in zip(args, impl["result"][1]):
+                        # judged only when no other request of the call addresses the same symbol (overlaps have no defined result)
+                        if bases.count(base(t)) == 1 and tg[3] == ("none",) and type(v) in (bool, int) and "{" not in t:
+                            wrote[t] = v
+            if session_kind == "mixed" and kind == "read" and last_write and impl["result"][0] == "tags":
+                for t, tg in zip(args, impl["result"][1]):
+                    if t in wrote and tg[3] == ("none",):
+                        got = tg[1]
+                        if isinstance(got, tuple) and len(got) == 2 and got[0] == "f":
+                            import struct as _st
+                            gv = _st.unpack("<d", _st.pack("<Q", got[1]))[0]
+                        elif isinstance(got, tuple) and len(got) == 2 and got[0] in ("int", "bool"):
+                            gv = got[1]
+                        else:
+                            continue                  # a structure / list / string came back: not judged here
+                        if float(gv) != float(wrote[t]) and not (got[0] == "bool" and bool(gv) == bool(wrote[t])):
+                            ctx.violation("read-after-write-differs", {"seed": ctx.seed, "index": i, "scenario": scn[:300], "config": cfg,
+                                                                       "tag": t, "calls": calls[-2:]},
+                                          "wrote %r to %r (reported written), a read of the same request returned %r" % (wrote[t], t, got))
             if mod is None:
                 ctx.count("%s/budget-exceeded" % stream)
                 ok = False
@@ -615,6 +666,11 @@ def run_reads(ctx, model, focus):
 
 def run_writes(ctx, model, focus):
     run_calls(ctx, model, focus, "write")
+
+
+def run_mixed(ctx, model, focus):
+    """sessions that alternate write and read calls, the reads repeating the request strings just written"""
+    run_calls(ctx, model, focus, "mixed")
 
 
 # ------------------------------------------------------------------ LogixDriver.open() itself (Logix/Open.lean)
